@@ -7,7 +7,7 @@ import impl
 TABLES = ["Enzymes"]
 LAKE_TARGETS = ["Moclo.Props.C01", "Moclo.Tables.Enzymes"]
 THEOREMS = ["Moclo.C01.product_is_concatenation", "Moclo.C01.structures_are_closed_forms", "Moclo.C01.module_canonical", "Moclo.C01.vector_canonical", "Moclo.C01.wellformed_assembly_succeeds", "Moclo.C01.product_independent_of_record_names",
-            "Moclo.C01.outcome_independent_of_record_names"]
+            "Moclo.C01.outcome_independent_of_record_names", "Moclo.C01.palindromic_module_never_assembled"]
 RULE = ("well-formed assemblies over every supported enzyme geometry (all geometries visited each run): chain "
         "length 1-5, every plasmid carrying exactly the two sites, rotated so that the origin falls inside the "
         "flanking structure in half of the cases, modules in random argument order, a quarter with some plasmids spelt in lower case; product compared (up to "
